@@ -102,8 +102,8 @@ def pool(name, mode_idx, n, seed):
 
 def items(tier, seed):
     out = []
-    nseq = 24 if tier == "quick" else 120
-    per = 12 if tier == "quick" else 10
+    nseq = 16 if tier == "quick" else 120
+    per = 8 if tier == "quick" else 10
     for name in cpus():
         for mi, _ in enumerate(isa.modes(name)):
             for a in range(0, nseq, per):
@@ -667,7 +667,7 @@ def coverage(agg, tier):
         "not_reproduced_examples": agg.get("not_reproduced_examples", [])[:4],
         "solver_s": round(agg.get("solver_s", 0.0), 1),
         "rule": "program = (cpu module, decode mode, instruction sequence, noaliasing, memtrace); obligation = one register / the pc / one universally quantified memory byte of one route (block map; state>>block; block.eval(state); stepwise from state) against the z3 composition of the single-instruction maps, for all values of everything the state template leaves symbolic",
-        "bounds": {"sequences": "per cpu module and mode (quick 24 | thorough 120) seeded sequences of length 1..(4 | 8) drawn from a pool of randomly decoded instructions (<= 2 per mnemonic in quick) that have semantics",
+        "bounds": {"sequences": "per cpu module and mode (quick 16 | thorough 120) seeded sequences of length 1..(4 | 8) drawn from a pool of randomly decoded instructions (<= 2 per mnemonic in quick) that have semantics",
                    "cpus": "every importable cpu module with semantics (ppc32, wasm, dwarf, eBPF/bpf excluded: no or stack-machine semantics)",
                    "states": "all-symbolic, (2 | 4) templates with 1-2 input registers set to boundary constants, (1 | 3) with every input register concrete; memory contents always symbolic",
                    "configurations": "noaliasing off/on with memory tracing on; noaliasing on with tracing off for every 4th sequence",
